@@ -729,6 +729,21 @@ struct FsWorld {
 
 }  // namespace
 
+Plan materialise_fs_plan(const Plan &plan) {
+  Ctx ctx; Outcome out;
+  FsWorld w(plan, ctx, out);
+  w.apply_faults();
+  Plan m = plan;
+  m.ops.clear();
+  m.proj = Project();
+  m.proj.files = w.delivered;
+  m.proj.main = w.main_name;
+  m.proj.has_ast = false;
+  m.knobs.erase("enum_total");
+  m.note = plan.note + " (faults materialised)";
+  return m;
+}
+
 void exec_fs_plan(const Plan &plan, Ctx &ctx, Outcome &out) {
   FsWorld w(plan, ctx, out);
   if (plan.world == "incl") w.run_incl();
